@@ -702,7 +702,7 @@ def report(ctx, rule: str, module_prefixes, floor_names=()):
         for ev in events:
             flagged.add(ev.var)
             path = [fi.where]
-            ctx.violation(rule, ev.fi, ev.node if hasattr(ev.node, "lineno") else fi.node, ev.message, path=path)
+            ctx.violation(rule, ev.fi, ev.node if hasattr(ev.node, "lineno") else fi.node, ev.message, path=path, robust=True)
         for var, kind in subjects.items():
             seen_names.add(fi.qual)
             if var not in flagged:
